@@ -29,6 +29,7 @@ type Unit struct {
 	Native          []string          `json:"native_files"`
 	ParallelEntries int               `json:"parallel_entries"`
 	SQLSchema       bool              `json:"sql_schema"`
+	Goroutines      bool              `json:"goroutines"`
 }
 
 type checkOpts struct {
@@ -384,6 +385,7 @@ func runUnit(spec *Spec, o *checkOpts, openKnown map[string]bool, openList []Kno
 func unitSpec(spec *Spec, u *Unit) *Spec {
 	s := *spec
 	s.Package, s.Dir, s.Files, s.Entries, s.Redirects, s.Tests, s.Native, s.ParallelEntries, s.SQLSchema = u.Package, u.Dir, u.Files, u.Entries, u.Redirects, u.Tests, u.Native, u.ParallelEntries, u.SQLSchema
+	s.Goroutines = spec.Goroutines || u.Goroutines
 	return &s
 }
 
@@ -418,7 +420,7 @@ func cmdCheck(args []string) int {
 		return 2
 	}
 	if len(spec.Units) == 0 {
-		spec.Units = []Unit{{Package: spec.Package, Dir: spec.Dir, Files: spec.Files, Entries: spec.Entries, Redirects: spec.Redirects, Tests: spec.Tests, Native: spec.Native, ParallelEntries: spec.ParallelEntries, SQLSchema: spec.SQLSchema}}
+		spec.Units = []Unit{{Package: spec.Package, Dir: spec.Dir, Files: spec.Files, Entries: spec.Entries, Redirects: spec.Redirects, Tests: spec.Tests, Native: spec.Native, ParallelEntries: spec.ParallelEntries, SQLSchema: spec.SQLSchema, Goroutines: spec.Goroutines}}
 	}
 	if o.workers <= 0 {
 		o.workers = runtime.NumCPU()
